@@ -5,7 +5,8 @@ M: spec/MD5.tla (RFC 1321 over 16-bit halves, validated against the RFC test sui
 G: drv_login calls the real login_calculate() for passwords of every length 0..40 (arbitrary non-NUL bytes, all-0xFF,
    letters) and challenges {0, 1, -1, 2^31-1, -2^31, byte-order patterns, random}, plus differential pairs (one byte
    >= 32 changed / one of the first 32 changed / one challenge bit flipped); real client+server sessions in raw mode
-   with various passwords give the wire events (DNS login message, raw login frame seed+1, raw reply seed-1).
+   with various passwords (clean paths, and paths that drop / duplicate / delay datagrams during the handshake so that
+   login messages are re-sent) give the wire events (DNS login message, raw login frame seed+1, raw reply seed-1).
 T: TLC evaluates every event against the TLA+ MD5 (an implementation independent of src/md5.c and src/login.c).
 """
 import json
@@ -23,22 +24,27 @@ from checks import common, funcs
 
 def wire_events(arg):
     import runs
-    seed, pw = arg
+    seed, pw, lossy = arg
     evs = []
     sess = None
     try:
+        relay = None
+        if lossy:
+            # a path that drops, duplicates and delays datagrams during the handshake: login messages are re-sent, and
+            # late copies of earlier answers arrive while the client waits for the raw login reply
+            relay = scen.Relay(seed, p_drop=0.25, p_dup=0.3, p_delay=0.25, max_delay=1800000, fault_from=0, fault_to=10 ** 13)
         sess = scen.Session(runs.bdir(), seed=seed, raw=True, qtype=["NULL", "TXT", "CNAME"][seed % 3], password=pw,
-                            tag="lg%d" % seed)
+                            tag="lg%d" % seed, relay=relay)
         sess.handshake(limit=120_000_000)
         w = sess.w
-        chal = None
+        chal = {}
         pwb = list(pw.encode("latin-1"))
         for e in w.trace:
             if e["ev"] != "Send":
                 continue
             d = e["data"]
-            if d[:3] == proto.RAW_HDR and len(d) >= 20 and (d[3] >> 4) == 1 and chal is not None:
-                evs.append({"e": "Wire", "pw": pwb, "seed": chal, "delta": 1 if e["inst"] == "C0" else 2,
+            if d[:3] == proto.RAW_HDR and len(d) >= 20 and (d[3] >> 4) == 1 and (d[3] & 15) in chal:
+                evs.append({"e": "Wire", "pw": pwb, "seed": chal[d[3] & 15], "delta": 1 if e["inst"] == "C0" else 2,
                             "out": list(d[4:20])})
                 continue
             m = D.parse(d)
@@ -47,10 +53,12 @@ def wire_events(arg):
             cls = proto.classify_query(m.qd[0][0], sess.domain)
             if e["inst"] == "S" and cls["kind"] == "version" and not m.errors:
                 pl = proto.decode_answer(m)
-                if pl and pl[:4] == b"VACK" and len(pl) >= 8:
-                    chal = list(pl[4:8])
-            elif e["inst"] == "C0" and cls["kind"] == "login" and chal is not None:
-                evs.append({"e": "Wire", "pw": pwb, "seed": chal, "delta": 0, "out": list(bytes.fromhex(cls["hash"]))})
+                if pl and pl[:4] == b"VACK" and len(pl) >= 9:
+                    chal[pl[8]] = list(pl[4:8])     # the challenge belongs to the session (userid) it was issued for:
+                    # on a lossy path the client asks again and the server opens one session per request it sees
+            elif e["inst"] == "C0" and cls["kind"] == "login" and cls.get("uid") in chal:
+                evs.append({"e": "Wire", "pw": pwb, "seed": chal[cls["uid"]], "delta": 0,
+                            "out": list(bytes.fromhex(cls["hash"]))})
     except (W.KernelHang, W.KernelDied):
         pass
     finally:
@@ -75,7 +83,9 @@ def main(tier):
     pws = ["a", "s3cret-pw", "p" * 31, "q" * 32, "r" * 33 + "tail", "\xff\xfe\x80\x01 x", "Z" * 40]
     if tier != "quick":
         pws += ["".join(chr(rng.randrange(1, 256)) for _ in range(rng.randrange(1, 41))) for _ in range(40)]
-    wires = vcheck.parallel(wire_events, [(seed * 50 + i, pw) for i, pw in enumerate(pws)])
+    wires = vcheck.parallel(wire_events, [(seed * 50 + i, pw, False) for i, pw in enumerate(pws)] +
+                            [(seed * 50 + 1000 + 10 * i + k, pw, True) for i, pw in enumerate(pws)
+                             for k in range(4 if tier == "quick" else 12)])
     wpath = os.path.join(vcheck.scratch(), "wire-%d.ndjson" % os.getpid())
     nw = 0
     with open(wpath, "w") as f:
